@@ -652,6 +652,18 @@ def _get_new_overload(model: ir.Model, domain: str, name: str) -> str:
         overload += 1
 
 
+def _fresh_initializer_name(graph: ir.Graph, base: str) -> str:
+    """A name derived from base that no initializer, input or node output of the graph uses."""
+    used = set(graph.initializers)
+    used.update(v.name for v in graph.inputs)
+    for node in graph:
+        used.update(v.name for v in node.outputs)
+    index = 1
+    while f"{base}_{index}" in used:
+        index += 1
+    return f"{base}_{index}"
+
+
 _default_metadata_merger: metadata_merger.MetadataMerger = metadata_merger.MetadataMerger(
     {RULE_NAME_TAG: metadata_merger.comma_separator_merger}
 )
@@ -696,6 +708,8 @@ class RewriteRuleSet:
             The number of rewrite rules applied.
         """
         count = 0
+        # Initializers whose name was taken over by an initializer of the replacement being applied.
+        displaced_initializers: list[ir.Value] = []
 
         for rule in self.rules:
             if rule.graph_pre_visitor:
@@ -720,11 +734,13 @@ class RewriteRuleSet:
                         continue
                     initializers = graph_or_function.initializers
                     for initializer in delta.new_initializers:
-                        if initializer.name in initializers:
+                        existing = initializers.get(initializer.name)  # type: ignore[arg-type]
+                        if existing is not None and existing is not initializer:
                             if verbose:
                                 print(f"Initializer {initializer.name} already exists.")
-                            continue
-                    for initializer in delta.new_initializers:
+                            # The new initializer takes over the name. The old one may still be
+                            # used outside the match: it is re-registered below if so.
+                            displaced_initializers.append(existing)
                         initializers[initializer.name] = initializer  # type: ignore[index]
                 # TODO: This does not yet handle the problem of determining the correct insertion point
                 # for inserted nodes in the case of patterns with multiple output-nodes. The following
@@ -796,6 +812,16 @@ class RewriteRuleSet:
                     _default_metadata_merger.copy_merged_metadata(
                         delta.match.nodes, delta.new_nodes
                     )
+
+                for displaced in displaced_initializers:
+                    if displaced.uses() or displaced.is_graph_output():
+                        # Still needed: keep it an initializer of the graph, under a fresh name.
+                        displaced.name = _fresh_initializer_name(
+                            graph_or_function,
+                            displaced.name,  # type: ignore[arg-type]
+                        )
+                        graph_or_function.initializers[displaced.name] = displaced  # type: ignore[union-attr]
+                displaced_initializers = []
 
                 count += 1
                 break
